@@ -264,6 +264,8 @@ fn sorted_segment_probe(a: &[String]) -> tantivy::Result<bool> {
 }
 
 mod probe_bg_merge;
+mod probe_lock_during_merges;
+mod probe_revalidation;
 mod probe_optional_threshold;
 mod probe_run_groups;
 mod probe_temp_store;
@@ -295,6 +297,12 @@ fn main() -> tantivy::Result<()> {
             }
             "run_groups_survive_memory_cut" => {
                 std::panic::catch_unwind(|| matches!(probe_run_groups::run(), Ok(()))).unwrap_or(false)
+            }
+            "lock_held_while_waiting_for_merges" => {
+                std::panic::catch_unwind(|| matches!(probe_lock_during_merges::run(), Ok(()))).unwrap_or(false)
+            }
+            "revalidation_detects_later_corruption" => {
+                std::panic::catch_unwind(|| matches!(probe_revalidation::run(), Ok(()))).unwrap_or(false)
             }
             "topk_union_with_freqless_term" => {
                 std::panic::catch_unwind(|| matches!(probe_union_freqless::run(), Ok(()))).unwrap_or(false)
